@@ -1,4 +1,7 @@
+#[cfg(not(mmtk_verif))]
 use std::sync::{Mutex, MutexGuard};
+#[cfg(mmtk_verif)]
+use crate::util::verif::sync::{Mutex, MutexGuard};
 
 use super::layout::vm_layout::PAGES_IN_CHUNK;
 use super::layout::VMMap;
